@@ -41,6 +41,29 @@ class Utils:
         ]
 
     @staticmethod
+    def _escape_unicode(text: str) -> str:
+        """Escape every non-ASCII character as RTF ``\\uN`` (signed 16-bit).
+
+        The file is written under an ``\\ansi`` header, so only 7-bit characters
+        may appear raw; characters beyond the BMP become a surrogate pair.
+        """
+        converted_text = ""
+        for char in text:
+            unicode_int = ord(char)
+            if unicode_int < 128:
+                converted_text += char
+                continue
+            if unicode_int > 0xFFFF:
+                offset = unicode_int - 0x10000
+                code_units = [0xD800 + (offset >> 10), 0xDC00 + (offset & 0x3FF)]
+            else:
+                code_units = [unicode_int]
+            for unit in code_units:
+                rtf_value = unit - (0 if unit < 32768 else 65536)
+                converted_text += f"\\uc1\\u{rtf_value}*"
+        return converted_text
+
+    @staticmethod
     def _get_color_index(color: str, used_colors=None) -> int:
         """Get the index of a color in the color table."""
         if not color or color == "black":
@@ -182,18 +205,7 @@ class TextContent(BaseModel):
 
         text = str(converted_text)
 
-        converted_text = ""
-        for char in text:
-            unicode_int = ord(char)
-            if unicode_int <= 255 and unicode_int != 177:
-                converted_text += char
-            else:
-                rtf_value = unicode_int - (0 if unicode_int < 32768 else 65536)
-                converted_text += f"\\uc1\\u{rtf_value}*"
-
-        text = converted_text
-
-        return text
+        return Utils._escape_unicode(text)
 
     def _as_rtf(self, method: str) -> str:
         """Format source as RTF."""
